@@ -815,6 +815,97 @@ def impl_sel(c):
     return {"pos": [int(x) for x in v.reshape(-1)], "shape": list(v.shape)}
 
 
+
+# ----------------------------------------------------------------------------------------------------------------
+# object-valued sensitivities (DyadCarrier = sparse-matrix sensitivity type, and a user container with __iadd__):
+# the no-aliasing and accumulation clauses of C18 checked against the dense / list semantics on the real code
+# ----------------------------------------------------------------------------------------------------------------
+class _Bag:
+    """a user sensitivity type holding a nested mutable container; `+=` mutates in place (as DyadCarrier does)"""
+    def __init__(self, items):
+        self.items = [list(i) for i in items]
+
+    def __iadd__(self, other):
+        self.items.extend([list(i) for i in other.items])
+        return self
+
+    def total(self):
+        return sorted(tuple(i) for i in self.items)
+
+
+def object_alias_cases(ctx, n):
+    pm = _pm()
+    import numpy as _np
+    from pymoto import DyadCarrier
+    rng = ctx.rng
+    for t in range(n):
+        kind = "dyad" if t % 2 == 0 else "bag"
+        nsig = rng.randint(2, 3)
+        sigs = [pm.Signal(f"s{i}") for i in range(nsig)]
+        if kind == "dyad":
+            sh = (rng.randint(1, 4), rng.randint(1, 4))
+
+            def newv():
+                k = rng.randint(1, 2)
+                return DyadCarrier([_np.array([rng.randint(-3, 3) for _ in range(sh[0])], dtype=float) for _ in range(k)],
+                                   [_np.array([rng.randint(-3, 3) for _ in range(sh[1])], dtype=float) for _ in range(k)], shape=sh)
+
+            def val(v):
+                return None if v is None else v.todense().tolist()
+
+            def zero():
+                return _np.zeros(sh).tolist()
+
+            def addv(a, b):
+                return (_np.array(a) + _np.array(b)).tolist()
+        else:
+            def newv():
+                return _Bag([[rng.randint(-3, 3) for _ in range(rng.randint(1, 3))] for _ in range(rng.randint(1, 2))])
+
+            def val(v):
+                return None if v is None else v.total()
+
+            def zero():
+                return []
+
+            def addv(a, b):
+                return sorted(list(a) + list(b))
+        expect = [None] * nsig
+        objs = [newv() for _ in range(3)]
+        oexp = [val(o) for o in objs]
+        ops = []
+        ok = True
+        for step in range(rng.randint(3, 8)):
+            i = rng.randrange(nsig)
+            j = rng.randrange(len(objs))
+            r = rng.random()
+            if r < 0.7:
+                ops.append(("add", i, j))
+                sigs[i].add_sensitivity(objs[j])
+                expect[i] = oexp[j] if expect[i] is None else addv(expect[i], oexp[j])
+            elif r < 0.85:
+                ops.append(("reset", i))
+                sigs[i].reset()
+                expect[i] = None
+            else:
+                ops.append(("mutate-arg", j))   # the caller changes the object it handed over earlier
+                extra = newv()
+                objs[j] += extra
+                oexp[j] = addv(oexp[j], val(extra))
+            got = [val(sg.sensitivity) for sg in sigs]
+            gobj = [val(o) for o in objs]
+            if got != expect or gobj != oexp:
+                ctx.oracle_fail(f"add_sensitivity with a {kind}-valued sensitivity aliases its argument or another signal: after {ops} the "
+                                f"signals hold {got} (expected {expect}), the caller's objects {gobj} (expected {oexp})",
+                                {"stream": "object-alias", "kind": kind, "ops": ops})
+                ok = False
+                break
+        ctx.evaluations += 1
+        ctx.branch("object-alias." + kind)
+        if ok:
+            ctx.distinct.add(("object-alias", kind, str(ops)))
+
+
 def correspondence(ctx):
     # ---- index sets --------------------------------------------------------------------------------
     cases = sel_cases(ctx)
@@ -848,6 +939,7 @@ def correspondence(ctx):
             ctx.branch("op." + op["op"] + tgt + (".err:" + o["err"] if o["err"] else ""))
         for mmsg in msgs[:3]:
             ctx.oracle_fail(mmsg, {"stream": stream, "request": req})
+    object_alias_cases(ctx, 60 if ctx.quick else 1500)
     ctx.notes.append(f"oracle: {tot}")
     if batch:
         ctx.sample({"request": batch[1][1], "last_observation": batch[1][2][-1]})
